@@ -259,6 +259,7 @@ func runC09(c *Ctx) {
 	checkIssuingTransactionKeepsAccountCache(c, "C09-R2")
 	checkScopeNamespaceCreatedExclusively(c, "C09-R2")
 	checkNoCommitHookReleasesIssuingMutex(c, "C09-R1")
+	checkIssuingMutexReleasedByItsTaker(c, "C09-R1")
 	checkRowFieldReadsAtDistinctOffsets(c, "C09-R2", "waddrmgr")
 	checkAccountCacheEvictedOnlyByInvalidation(c, "C09-R2")
 	checkSameNamedParametersNotCrossed(c, "C09-R2", "waddrmgr") // the persisted next indices of the two branches are not exchanged
